@@ -413,6 +413,12 @@ func (e *FakePreSharedKeyExtension) Write(b []byte) (n int, err error) {
 	fullLen := len(b)
 	s := cryptobyte.String(b)
 
+	// decoded into locals and assigned at the end: Write replaces what the
+	// extension held (as every other TLSExtensionWriter does) instead of
+	// appending to it, and leaves it untouched when the body is invalid.
+	var identities []PskIdentity
+	var binders [][]byte
+
 	var identitiesLength uint16
 	if !s.ReadUint16(&identitiesLength) {
 		return 0, errors.New("tls: invalid PSK extension")
@@ -442,7 +448,7 @@ func (e *FakePreSharedKeyExtension) Write(b []byte) (n int, err error) {
 			return 0, errors.New("tls: invalid PSK extension")
 		}
 
-		e.Identities = append(e.Identities, PskIdentity{
+		identities = append(identities, PskIdentity{
 			Label:               identity,
 			ObfuscatedTicketAge: obfuscatedTicketAge,
 		})
@@ -472,11 +478,12 @@ func (e *FakePreSharedKeyExtension) Write(b []byte) (n int, err error) {
 			return 0, errors.New("tls: invalid PSK extension")
 		}
 
-		e.Binders = append(e.Binders, binder)
+		binders = append(binders, binder)
 
 		bindersLength -= uint16(binderLength)
 	}
 
+	e.Identities, e.Binders = identities, binders
 	return fullLen, nil
 }
 
